@@ -93,10 +93,7 @@ ADAPT_LOGLIN = Stream('cli_adapt_loglin', cli.cli_harness, None, gen_adapt_logli
 ADAPT_LOGLIN_MPI = Stream('cli_adapt_loglin_mpi', cli.cli_harness, None, gen_adapt_loglin, oracle=oracle_adapt_loglin,
                           kind='oracle', np=[2, 4], nontrivial=lambda op, out: out.startswith('rc=0'), timeout=1800)
 
-STREAMS = [streams_metric.INTERP_KERNEL, streams_metric.INTERP_GRID, cli.ADAPT_METRIC, ADAPT_BIGID_MPI, ADAPT_LOGLIN]
-# ADAPT_LOGLIN_MPI is registered once the defect it exposes on the unchanged tree (refmpi adapt, >= 2 active partitions: a few
-# vertices off by 1e-5..1e-3 for a log-linear field) is root-caused: then either repaired in /repo or listed as a known finding
-PENDING_STREAMS = [ADAPT_LOGLIN_MPI]
+STREAMS = [streams_metric.INTERP_KERNEL, streams_metric.INTERP_GRID, cli.ADAPT_METRIC, ADAPT_BIGID_MPI, ADAPT_LOGLIN, ADAPT_LOGLIN_MPI]
 
 EXPLANATION = (
     'Proved in Lean over the reals, about the executable model (Refine/Model/Metric.lean: interpolateNode = '
